@@ -292,7 +292,12 @@ impl IndexFooter {
     /// Validate footer integrity using MD5
     pub fn is_valid(&self) -> bool {
         let expected = self.calculate_footer_hash();
-        let actual_len = self.footer_hash.len().min(self.footer_hash_bytes as usize);
+        // footer_hash_bytes comes from the file and may exceed the 8-byte hash
+        let actual_len = self
+            .footer_hash
+            .len()
+            .min(self.footer_hash_bytes as usize)
+            .min(expected.len());
         self.footer_hash[..actual_len] == expected[..actual_len]
     }
 
@@ -482,6 +487,8 @@ impl ArchiveIndex {
             let mut actual_arr = [0u8; 8];
             let copy_len = expected_hash.len().min(8);
             expected_arr[..copy_len].copy_from_slice(&expected_hash[..copy_len]);
+            // The stored hash is shorter than 8 bytes when footer_hash_bytes < 8
+            let copy_len = footer.footer_hash.len().min(8);
             actual_arr[..copy_len].copy_from_slice(&footer.footer_hash[..copy_len]);
             return Err(ArchiveError::ChecksumMismatch {
                 expected: expected_arr,
@@ -1160,6 +1167,8 @@ impl ChunkedArchiveIndex {
             let mut actual_arr = [0u8; 8];
             let copy_len = expected_hash.len().min(8);
             expected_arr[..copy_len].copy_from_slice(&expected_hash[..copy_len]);
+            // The stored hash is shorter than 8 bytes when footer_hash_bytes < 8
+            let copy_len = footer.footer_hash.len().min(8);
             actual_arr[..copy_len].copy_from_slice(&footer.footer_hash[..copy_len]);
             return Err(ArchiveError::ChecksumMismatch {
                 expected: expected_arr,
@@ -1399,6 +1408,23 @@ mod tests {
 
         footer.footer_hash = vec![0u8; 8];
         assert!(!footer.is_valid());
+    }
+
+    #[test]
+    fn test_footer_hash_length_other_than_eight() {
+        // Longer than the 8-byte hash: compared on the common prefix, no panic
+        let toc_hash = vec![0x12, 0x34, 0x56, 0x78, 0x9A, 0xBC, 0xDE, 0xF0];
+        let mut footer = IndexFooter::new(toc_hash, 1);
+        footer.footer_hash_bytes = 91;
+        footer.footer_hash = vec![0u8; 91];
+        assert!(!footer.is_valid());
+
+        // Shorter than 8 bytes and wrong: parse reports a checksum mismatch
+        let mut data = vec![0u8; 200];
+        data[200 - 13] = 3; // hash length as seen by the first probe
+        data[200 - 8] = 3; // footer_hash_bytes field of the resulting 23-byte footer
+        let result = ArchiveIndex::parse(&mut Cursor::new(&data));
+        assert!(matches!(result, Err(ArchiveError::ChecksumMismatch { .. })));
     }
 
     #[test]
